@@ -548,7 +548,8 @@ fn main() {
          EXHAUSTIVE for len 0..=9 (thorough 0..=12) x every window x every driver x every backend kind x output container x path (sub 'small_scope'); random for len up to 120 / 300; sub 'out_view_placement' (enumerated, len 0..=8 / 14) writes through strided / reversed ndarray out views inside a padded sentinel buffer. Non-trivial = len >= 2 and 2 <= w <= len (a removal is reported); distinct = distinct cells",
     )
     .assume("Polars inputs are exercised in the Polars binary of C07; Polars output through uset is documented as unsupported (DESIGN 5.7)");
-    p.add(sub_enum("small_scope", small_scope, check_driver));
+    // (canary: the slice forms read through `uslice` of the real containers)
+    p.add(canary(sub_enum("small_scope", small_scope, check_driver)));
     p.add(sub("random_cells", 20000, 400000, rand_case, check_driver));
     p.add(canary(sub_enum("out_view_placement", out_view_cases, check_out_view)));
     p.add(canary(sub_enum("deque_out_buffer_and_longer_second_series", deque_out_cases, check_deque_out)));
